@@ -89,6 +89,10 @@ pub struct MonCtx<'a> {
     pub serde_checked: u64,
     pub iter_histories: u64,
     pub iter_steps: u64,
+    /// long-lived destinations of `clone_from` (they keep what earlier, possibly larger, record
+    /// sets left in them)
+    pub fa_clone_dst: Option<seq_io::fasta::RecordSet>,
+    pub fq_clone_dst: Option<seq_io::fastq::RecordSet>,
 }
 
 impl<'a> MonCtx<'a> {
@@ -104,6 +108,8 @@ impl<'a> MonCtx<'a> {
             serde_checked: 0,
             iter_histories: 0,
             iter_steps: 0,
+            fa_clone_dst: None,
+            fq_clone_dst: None,
         }
     }
 }
@@ -333,6 +339,20 @@ impl Api for Fa {
                 }
             }
         }
+        if nones >= 2 {
+            // the end has been reported twice: skipping ahead (nth / skip / step_by use it) must not
+            // find anything either, and must return
+            for k in [0usize, 3, 1000] {
+                match it.nth(k) {
+                    None => outs.push(Out::End),
+                    Some(Ok(rec)) => outs.push(Out::Rec(RecObs { head: rec.head, lines: vec![], seq: rec.seq, qual: vec![] })),
+                    Some(Err(e)) => {
+                        let (o, m) = fa_err(e);
+                        outs.push(Out::Err(o, m));
+                    }
+                }
+            }
+        }
         outs
     }
 }
@@ -438,6 +458,20 @@ impl Api for Fq {
                         seq: rec.seq,
                         qual: rec.qual,
                     }));
+                }
+            }
+        }
+        if nones >= 2 {
+            // the end has been reported twice: skipping ahead (nth / skip / step_by use it) must not
+            // find anything either, and must return
+            for k in [0usize, 3, 1000] {
+                match it.nth(k) {
+                    None => outs.push(Out::End),
+                    Some(Ok(rec)) => outs.push(Out::Rec(RecObs { head: rec.head, lines: vec![], seq: rec.seq, qual: rec.qual })),
+                    Some(Err(e)) => {
+                        let (o, m) = fq_err(e);
+                        outs.push(Out::Err(o, m));
+                    }
                 }
             }
         }
